@@ -3,7 +3,7 @@
    This file only closes statements with proved lemmas; the instance theorems are concrete histories
    (with the observations the implementation produced for them) re-evaluated inside Coq. *)
 From Coq Require Import List NArith.
-From Proto Require Import Broker Script ProofsBasic ProofsInstances Props ProofsForward ProofsFanout.
+From Proto Require Import Broker Script ProofsBasic ProofsInstances Props PropsE2E ProofsForward ProofsFanout ProofsE2E.
 Import ListNotations.
 Open Scope N_scope.
 
@@ -33,3 +33,28 @@ Print Assumptions C01_fanout.
 Theorem C01_fanout_store : Props.C01_fanout_store.
 Proof. exact ProofsFanout.fanout_store. Qed.
 Print Assumptions C01_fanout_store.
+
+(* END TO END: in a broker whose store results from any history of in-domain subscribe / unsubscribe / retain operations, a PUBLISH with a good topic name is delivered to exactly the holders of a subscription that matches under section 4.7 in the ABSTRACT subscription list: one delivery per matching pair, QoS = min, same topic and payload, retain clear; to nobody else *)
+Theorem C01_end_to_end : PropsE2E.C01_end_to_end.
+Proof. exact ProofsE2E.end_to_end. Qed.
+Print Assumptions C01_end_to_end.
+
+(* a SUBSCRIBE extends the history by one subscribe operation per filter *)
+Theorem C01_subscribe_tracks : PropsE2E.E2E_subscribe_tracks.
+Proof. exact ProofsE2E.subscribe_tracks. Qed.
+Print Assumptions C01_subscribe_tracks.
+
+(* an UNSUBSCRIBE extends the history by one unsubscribe operation per filter *)
+Theorem C01_unsubscribe_tracks : PropsE2E.E2E_unsubscribe_tracks.
+Proof. exact ProofsE2E.unsubscribe_tracks. Qed.
+Print Assumptions C01_unsubscribe_tracks.
+
+(* a PUBLISH the broker hands on extends it by the retain operation iff its retain flag is set *)
+Theorem C01_publish_tracks : ProofsE2E.E2E_publish_tracks_fwd.
+Proof. exact ProofsE2E.publish_tracks_fwd. Qed.
+Print Assumptions C01_publish_tracks.
+
+(* ... which is false of a message object that cannot be written (not reachable from the wire): it is fanned out but not stored *)
+Theorem C01_publish_tracks_unencodable_refuted : ~ PropsE2E.E2E_publish_tracks.
+Proof. exact ProofsE2E.publish_tracks_refuted. Qed.
+Print Assumptions C01_publish_tracks_unencodable_refuted.
